@@ -238,6 +238,18 @@ CHECKS["C14"]["text"] += (" Every 6th case is run once more on one XSLTEngineImp
 CHECKS["C02"]["text"] += (" Further families: cross-document (id() / current() / unions in predicates on nodes of another document), cross-kind order (unions of text / PI / "
     "comment / attribute / element children), one XObject factory per run (released value objects are recycled); a case that exceeds its CPU budget is a violation.")
 
+CHECKS["C02"]["text"] += (" XPathSem models dyn:evaluate / xalan:evaluate (what the string spells is decided by XPathSyntax!Parse on its tokens; EXSLT's empty node-set "
+    "for strings that are no expressions); one execution context serves a whole run, replaced after a failed evaluation.")
+CHECKS["C06"]["text"] += (" TransformerImpl also transcribes the transformer's own object factory as far as the double overload of setStylesheetParam uses it "
+    "(LIFO cache of released numbers, emptied by clearStylesheetParams; signed zeros in the pool); the pool has functions installed process-wide next to the one installed on the transformer.")
+CHECKS["C11"]["text"] += (" A recycle family runs pairs of evaluations back to back in one process so that the value objects of the first are recycled for the second "
+    "(cached conversions must not survive).")
+CHECKS["C12"]["text"] += (" An id() family delivers every sequence of <= 4 ID tokens and node-set arguments holding token lists, as general value and as node list, on native and Xerces trees.")
+CHECKS["C19"]["text"] += (" Scenario arenas keeps several arena blocks of every value kind alive; requests for large blocks are sampled besides the stride; blocks written to after "
+    "their return are reported.")
+CHECKS["C01"]["text"] += (" The stylesheet-text family places the element in the main, an included or an imported document and varies xml:space on it and on both xsl:stylesheet elements "
+    "(StylesheetTree!Preserved: the chain of the element's own document decides).")
+
 def main():
     props = [json.loads(l) for l in open(os.path.join(ROOT, "properties.jsonl"))]
     checks, na = [], []
